@@ -15,6 +15,9 @@ const INTERVAL_MS: u64 = 100;
 #[derive(Clone, Debug)]
 pub enum AStep {
     Ev(bool, &'static str),
+    /// an event that repeats the key's previous value (what a non-unique subscription sees when the
+    /// same value is set or published again)
+    Same(bool, &'static str),
     Adv(u64),
 }
 
@@ -76,11 +79,16 @@ impl Scenario for AggScenario {
             steps.push(AStep::Adv(2 * INTERVAL_MS));
             for st in &steps {
                 match st {
-                    AStep::Ev(set, key) => {
-                        counter += 1;
-                        let kv = vec![KeyValuePair { key: key.to_string(), value: json!(counter) }];
+                    AStep::Ev(set, key) | AStep::Same(set, key) => {
+                        let value = if matches!(st, AStep::Same(..)) {
+                            inputs.get(*key).and_then(|v| v.last()).map(|x| x.1).unwrap_or(0)
+                        } else {
+                            counter += 1;
+                            counter
+                        };
+                        let kv = vec![KeyValuePair { key: key.to_string(), value: json!(value) }];
                         let ev = if *set { PStateEvent::KeyValuePairs(kv) } else { PStateEvent::Deleted(kv) };
-                        inputs.entry(key.to_string()).or_default().push((*set, counter, start.elapsed().as_millis()));
+                        inputs.entry(key.to_string()).or_default().push((*set, value, start.elapsed().as_millis()));
                         if agg.aggregate(ev).await.is_err() {
                             violation = Some("aggregator refused an event".into());
                         }
@@ -146,6 +154,7 @@ pub fn agg_scenario() -> AggScenario {
             AStep::Ev(true, "b"),
             AStep::Ev(false, "a"),
             AStep::Ev(false, "b"),
+            AStep::Same(true, "a"),
             AStep::Adv(INTERVAL_MS / 2),
             AStep::Adv(INTERVAL_MS),
         ],
